@@ -42,6 +42,7 @@ type World struct {
 	globals      map[*ssa.Global]*GlobalInfo
 	effects      map[*ssa.Function]*Effects
 	effectRounds int
+	errRes       *errResolver
 }
 
 func readModPath(dir string) (string, error) {
